@@ -1,6 +1,8 @@
-// globals2coq reads package jen (current working tree, non-test files, build tag verif
-// off), type-checks it with go/types and prints Coq definitions describing the package's
-// global state - the premises of C09 (Files do not interfere):
+// globals2coq reads package jen (current working tree, non-test files; every file compiled with
+// cgo on or off, with or without -race - see "File set" below; the verif tag off), type-checks
+// it with go/types and prints Coq definitions describing the package's global state - the
+// premises of C09 (Files do not interfere).  It only REPORTS; what is acceptable (which types,
+// which imports, which excluded files) is decided in coq/Props/C09.v:
 //
 //	package_vars         : list (str * bool)
 //	    one row per package-level `var` (the blank identifier excluded); true iff some
@@ -25,10 +27,11 @@
 //	written:  left side of any assignment (`x = ..`, `x[k] = ..`, `x.f = ..`, `x += ..`,
 //	          `x = append(x, ..)`), `x++ / x--`, key or value variable of a `range` with `=`,
 //	          operand of `&`, first argument of delete / append / copy / clear,
-//	          receiver of a method with a pointer receiver (address taken implicitly), receiver of
-//	          any method when the path's type can reach shared memory (see below)
+//	          receiver of a method with a pointer receiver (address taken implicitly),
+//	          receiver of any method when the path's type can reach shared memory (see below),
+//	          the function position of a call (a closure may carry state)
 //	read:     argument of len / cap, operand of `range`, operand of a comparison or other
-//	          binary / unary operator, switch tag, condition; the function position of a call
+//	          binary / unary operator, switch tag, condition
 //	escapes:  ANY other position (argument of a call or conversion, right side of an
 //	          assignment or definition, initialiser, return value, element of a composite
 //	          literal, channel send, operand of a `range` that binds the element to a variable,
@@ -36,6 +39,38 @@
 //	          contains a pointer, slice, map, channel, func or interface (a callee or an
 //	          alias could mutate what the variable refers to); it is a read when the type is
 //	          built from basic types (strings are immutable), arrays and structs only.
+//
+// Occurrences of package-level variables of OTHER packages (unicode.Categories, io.EOF,
+// os.Args, ...; through a qualified identifier or a dot import) go through the same
+// classification and are listed in foreign_vars / foreign_var_uses: package jen must not keep
+// state in somebody else's variable.  Calling a func-typed path (`x()`, `x[k]()`, `x.f()`) is
+// flagged as well: a func value is a closure and may carry state the scan cannot see.
+//
+// Further definitions (the file set and what the scan cannot look into):
+//
+//	package_var_types : list (str * (str * bool))
+//	    per package-level variable its type, printed with FULL package paths (a type named
+//	    `string` declared in jen prints as github.com/dave/jennifer/jen.string), and whether a
+//	    value of the type can reach shared memory (pointer, slice, map, chan, func, interface,
+//	    unsafe.Pointer anywhere inside); the Coq side decides which reaching types are allowed
+//	foreign_vars      : list (str * bool)       "pkgpath.Name", flag as in package_vars
+//	foreign_var_uses  : list (str * list str)
+//	foreign_funcs     : list (str * str)        (package path, name) of every package-level
+//	                                            function of another package that jen mentions
+//	jen_imports       : list str                every import path of the scanned files ("C" too)
+//	excluded_go_files : list str                non-test .go files of jen/ NOT compiled under at
+//	                                            least one of {cgo on, off} x {race, no race}
+//	non_go_sources    : list str                .s .c .h .syso ... files in jen/
+//	bodiless_funcs    : list str                func declarations without body, //go:linkname
+//
+// File set (tools/internal/srcset): the scan reads the UNION of the files compiled under
+// {cgo on, cgo off} x {race, no race} for this GOOS/GOARCH/toolchain - CGO_ENABLED of the
+// environment is not consulted.  The union is type-checked as one package; if that fails (a
+// `cgo` file and its `!cgo` twin declare the same names) every distinct configuration is
+// type-checked and scanned on its own and the rows are merged (a variable is flagged when some
+// configuration flags it).  The build context is rooted at <repo>, so in-module imports
+// resolve wherever the translator is started; import "C" is accepted by the type checker
+// (FakeImportC) and shows up in jen_imports.
 //
 // The scan is deliberately conservative: hoisting `regexp.MustCompile(..)` to a package-level
 // variable and calling a method on it sets the flag (a *regexp.Regexp is a pointer), and the
@@ -45,19 +80,17 @@ package main
 import (
 	"fmt"
 	"go/ast"
-	"go/build"
-	"go/build/constraint"
 	"go/importer"
 	"go/parser"
 	"go/token"
 	"go/types"
 	"os"
 	"path/filepath"
-	"runtime"
 	"sort"
 	"strings"
 
 	"veriftools/coqfmt"
+	"veriftools/internal/srcset"
 )
 
 func die(format string, a ...interface{}) {
@@ -66,34 +99,6 @@ func die(format string, a ...interface{}) {
 }
 
 var fset = token.NewFileSet()
-
-// buildTagOK: does the file take part in an ordinary build (no custom tags such as verif)?
-func buildTagOK(f *ast.File) bool {
-	for _, cg := range f.Comments {
-		if cg.Pos() >= f.Package {
-			break
-		}
-		for _, c := range cg.List {
-			if !constraint.IsGoBuild(c.Text) && !constraint.IsPlusBuild(c.Text) {
-				continue
-			}
-			x, err := constraint.Parse(c.Text)
-			if err != nil {
-				die("%s: %v", pos(c), err)
-			}
-			ok := x.Eval(func(tag string) bool {
-				if tag == runtime.GOOS || tag == runtime.GOARCH || tag == "gc" || tag == "unix" {
-					return true
-				}
-				return strings.HasPrefix(tag, "go1.")
-			})
-			if !ok {
-				return false
-			}
-		}
-	}
-	return true
-}
 
 func pos(n ast.Node) string {
 	p := fset.Position(n.Pos())
@@ -162,6 +167,8 @@ type scanner struct {
 	info     *types.Info
 	vars     map[*types.Var]int // package-level variable -> index in rows
 	rows     []*varRow
+	fvars    map[string]int // "pkgpath.Name" of a package-level variable of another package -> index in frows
+	frows    []*varRow
 	declID   map[*ast.Ident]bool // identifiers that are the declaring occurrence
 	sync     []string
 	problems []string
@@ -171,6 +178,8 @@ type varRow struct {
 	name  string
 	decl  string
 	typ   string
+	full  string   // the type with full package paths
+	reach bool     // the type can reach shared memory
 	flags []string // occurrences that set the flag
 	reads int
 }
@@ -234,6 +243,13 @@ func (s *scanner) classify(id *ast.Ident, row *varRow, stack []ast.Node) {
 				if sel, ok := s.info.Selections[p]; ok && sel.Kind() == types.FieldVal {
 					grown = true
 				}
+			} else if p.Sel == e {
+				// qualified identifier pkg.Name: the selector IS the variable
+				if x, ok := p.X.(*ast.Ident); ok {
+					if _, isPkg := s.info.Uses[x].(*types.PkgName); isPkg {
+						grown = true
+					}
+				}
 			}
 		}
 		if !grown {
@@ -283,7 +299,8 @@ func (s *scanner) classify(id *ast.Ident, row *varRow, stack []ast.Node) {
 		row.reads++
 	case *ast.CallExpr:
 		if p.Fun == e {
-			row.reads++ // calling a func-typed variable reads it
+			// a func value is a closure: it may carry state that no scan of the variable sees
+			flag(e, "called (a func value may carry state)")
 			return
 		}
 		first := len(p.Args) > 0 && p.Args[0] == e
@@ -379,67 +396,36 @@ func (s *scanner) classify(id *ast.Ident, row *varRow, stack []ast.Node) {
 	}
 }
 
-// matchFile: is this file part of the package as the go tool builds it here (GOOS, GOARCH,
-// release tags, file name suffixes, //go:build and +build lines; no extra tags, so files
-// guarded by the `verif` tag are left out)?  go/build decides, the same way `go build` does.
-func matchFile(path string) bool {
-	ok, err := build.Default.MatchFile(filepath.Dir(path), filepath.Base(path))
-	if err != nil {
-		die("%s: %v", path, err)
-	}
-	return ok
+// result of scanning one type-checked set of files
+type result struct {
+	rows, frows []*varRow
+	consts      []string // positions of the constant declarations
+	inits       []string
+	funcFields  []string
+	sync        []string
+	problems    []string
+	ffuncs      [][2]string // (package path, name) of package-level functions of other packages
 }
 
-func main() {
-	if len(os.Args) < 2 {
-		die("usage: globals2coq <repo>")
-	}
-	repo := os.Args[1]
-	dir := filepath.Join(repo, "jen")
-	names, err := filepath.Glob(filepath.Join(dir, "*.go"))
-	if err != nil {
-		die("%v", err)
-	}
-	sort.Strings(names)
-	var files []*ast.File
-	var scanned, excluded []string
-	for _, n := range names {
-		if strings.HasSuffix(n, "_test.go") {
-			continue
-		}
-		f, err := parser.ParseFile(fset, n, nil, parser.ParseComments)
-		if err != nil {
-			die("%v", err)
-		}
-		if f.Name.Name != "jen" {
-			die("%s: package %s, expected jen", n, f.Name.Name)
-		}
-		if matchFile(n) {
-			files = append(files, f)
-			scanned = append(scanned, filepath.Base(n))
-		} else {
-			excluded = append(excluded, filepath.Base(n))
-		}
-	}
-	if len(files) == 0 {
-		die("no Go files in %s", dir)
-	}
+const jenPath = "github.com/dave/jennifer/jen"
+
+// scanFiles type-checks the files as package jen and scans them.
+func scanFiles(files []*ast.File) (*result, error) {
 	info := &types.Info{
 		Types:      map[ast.Expr]types.TypeAndValue{},
 		Uses:       map[*ast.Ident]types.Object{},
 		Defs:       map[*ast.Ident]types.Object{},
 		Selections: map[*ast.SelectorExpr]*types.Selection{},
 	}
-	conf := types.Config{Importer: importer.ForCompiler(fset, "source", nil)}
-	pkg, err := conf.Check("github.com/dave/jennifer/jen", fset, files, info)
+	conf := types.Config{Importer: importer.ForCompiler(fset, "source", nil), FakeImportC: true}
+	pkg, err := conf.Check(jenPath, fset, files, info)
 	if err != nil {
-		die("package jen does not type-check: %v", err)
+		return nil, err
 	}
-	s := &scanner{pkg: pkg, info: info, vars: map[*types.Var]int{}, declID: map[*ast.Ident]bool{}}
+	s := &scanner{pkg: pkg, info: info, vars: map[*types.Var]int{}, fvars: map[string]int{}, declID: map[*ast.Ident]bool{}}
+	r := &result{}
 
 	// ---- declarations: package-level vars, consts, init functions -------------------
-	nconsts := 0
-	var inits []string
 	for _, f := range files {
 		for _, d := range f.Decls {
 			switch d := d.(type) {
@@ -451,7 +437,7 @@ func main() {
 					}
 					for _, id := range vs.Names {
 						if d.Tok == token.CONST {
-							nconsts++
+							r.consts = append(r.consts, pos(id))
 							continue
 						}
 						if id.Name == "_" {
@@ -465,19 +451,20 @@ func main() {
 						s.declID[id] = true
 						s.vars[v] = len(s.rows)
 						s.rows = append(s.rows, &varRow{name: id.Name, decl: pos(id),
-							typ: types.TypeString(v.Type(), types.RelativeTo(pkg))})
+							typ:  types.TypeString(v.Type(), types.RelativeTo(pkg)),
+							full: types.TypeString(v.Type(), nil), reach: reach(v.Type())})
 					}
 				}
 			case *ast.FuncDecl:
 				if d.Recv == nil && d.Name.Name == "init" {
-					inits = append(inits, pos(d))
+					r.inits = append(r.inits, pos(d))
 				}
 			}
 		}
 	}
 
 	// ---- occurrences of package-level variables, sync / goroutine / channel uses ------
-	var funcFields []string
+	seenFunc := map[[2]string]bool{}
 	for _, f := range files {
 		for _, im := range f.Imports {
 			if im.Path.Value == `"sync"` || im.Path.Value == `"sync/atomic"` {
@@ -496,6 +483,27 @@ func main() {
 					if v, ok := o.(*types.Var); ok {
 						if k, ok := s.vars[v]; ok {
 							s.classify(n, s.rows[k], stack)
+						} else if v.Pkg() != nil && v.Pkg() != pkg && !v.IsField() && v.Parent() == v.Pkg().Scope() {
+							// a package-level variable of ANOTHER package
+							key := v.Pkg().Path() + "." + v.Name()
+							k, ok := s.fvars[key]
+							if !ok {
+								k = len(s.frows)
+								s.fvars[key] = k
+								s.frows = append(s.frows, &varRow{name: key, decl: pos(n),
+									typ:  types.TypeString(v.Type(), types.RelativeTo(pkg)),
+									full: types.TypeString(v.Type(), nil), reach: reach(v.Type())})
+							}
+							s.classify(n, s.frows[k], stack)
+						}
+					}
+					if fn, ok := o.(*types.Func); ok && fn.Pkg() != nil && fn.Pkg() != pkg {
+						if sig, ok := fn.Type().(*types.Signature); ok && sig.Recv() == nil {
+							key := [2]string{fn.Pkg().Path(), fn.Name()}
+							if !seenFunc[key] {
+								seenFunc[key] = true
+								r.ffuncs = append(r.ffuncs, key)
+							}
 						}
 					}
 					if o.Pkg() != nil && (o.Pkg().Path() == "sync" || o.Pkg().Path() == "sync/atomic") {
@@ -523,7 +531,7 @@ func main() {
 					for i := 0; i < st.NumFields(); i++ {
 						fl := st.Field(i)
 						if hasFunc(fl.Type(), 0) {
-							funcFields = append(funcFields, fmt.Sprintf("%s.%s: %s", n.Name.Name, fl.Name(),
+							r.funcFields = append(r.funcFields, fmt.Sprintf("%s.%s: %s", n.Name.Name, fl.Name(),
 								types.TypeString(fl.Type(), types.RelativeTo(pkg))))
 						}
 						if reachesSync(fl.Type()) {
@@ -536,38 +544,200 @@ func main() {
 			return true
 		})
 	}
-	sort.Strings(funcFields)
+	r.rows, r.frows, r.sync, r.problems = s.rows, s.frows, s.sync, s.problems
+	return r, nil
+}
+
+// merge adds the findings of b to a: rows are identified by name and declaring position
+// (foreign rows by name), a flag set in either stays set, lists are united in order.
+func merge(a, b *result) {
+	mergeRows := func(dst *[]*varRow, src []*varRow, foreign bool) {
+		for _, r := range src {
+			var hit *varRow
+			for _, d := range *dst {
+				if d.name == r.name && (foreign || d.decl == r.decl) {
+					hit = d
+					break
+				}
+			}
+			if hit == nil {
+				*dst = append(*dst, r)
+				continue
+			}
+			hit.flags = union(hit.flags, r.flags)
+			if r.reads > hit.reads {
+				hit.reads = r.reads
+			}
+			if r.full != hit.full {
+				hit.flags = union(hit.flags, []string{r.decl + ": type " + r.full + " in another configuration"})
+			}
+			hit.reach = hit.reach || r.reach
+		}
+	}
+	mergeRows(&a.rows, b.rows, false)
+	mergeRows(&a.frows, b.frows, true)
+	a.consts = union(a.consts, b.consts)
+	a.inits = union(a.inits, b.inits)
+	a.funcFields = union(a.funcFields, b.funcFields)
+	a.sync = union(a.sync, b.sync)
+	a.problems = union(a.problems, b.problems)
+	for _, f := range b.ffuncs {
+		dup := false
+		for _, g := range a.ffuncs {
+			dup = dup || f == g
+		}
+		if !dup {
+			a.ffuncs = append(a.ffuncs, f)
+		}
+	}
+}
+
+func union(a, b []string) []string {
+	seen := map[string]bool{}
+	for _, x := range a {
+		seen[x] = true
+	}
+	for _, x := range b {
+		if !seen[x] {
+			seen[x] = true
+			a = append(a, x)
+		}
+	}
+	return a
+}
+
+func main() {
+	if len(os.Args) < 2 {
+		die("usage: globals2coq <repo>")
+	}
+	repo := os.Args[1]
+	// in-module imports resolve from <repo>/go.mod, wherever the translator was started
+	if err := srcset.UseRepo(repo); err != nil {
+		die("%v", err)
+	}
+	set, err := srcset.Load(repo)
+	if err != nil {
+		die("%v", err)
+	}
+	if len(set.Union) == 0 {
+		die("no Go files in %s", set.Dir)
+	}
+	parsed := map[string]*ast.File{}
+	importSet := map[string]bool{}
+	var bodiless []string
+	for _, name := range set.Union {
+		f, err := parser.ParseFile(fset, filepath.Join(set.Dir, name), nil, parser.ParseComments)
+		if err != nil {
+			die("%v", err)
+		}
+		if f.Name.Name != "jen" {
+			die("%s: package %s, expected jen", name, f.Name.Name)
+		}
+		parsed[name] = f
+		for _, im := range f.Imports {
+			importSet[strings.Trim(im.Path.Value, "`\"")] = true
+		}
+		bodiless = append(bodiless, srcset.BodilessIn(fset, f)...)
+	}
+	astFiles := func(names []string) []*ast.File {
+		var l []*ast.File
+		for _, n := range names {
+			l = append(l, parsed[n])
+		}
+		return l
+	}
+	mode := "the union of all configurations, type-checked as one package"
+	res, uerr := scanFiles(astFiles(set.Union))
+	if uerr != nil {
+		// the union is not one package (e.g. a cgo file and its !cgo twin): scan every distinct
+		// configuration on its own and merge
+		if set.Uniform() {
+			die("package jen does not type-check: %v", uerr)
+		}
+		cnames, lists := set.DistinctConfigs()
+		mode = "per configuration (" + strings.Join(cnames, "; ") + "), the union does not type-check: " + uerr.Error()
+		res = nil
+		for i, l := range lists {
+			r, err := scanFiles(astFiles(l))
+			if err != nil {
+				die("package jen does not type-check under %s: %v", cnames[i], err)
+			}
+			if res == nil {
+				res = r
+			} else {
+				merge(res, r)
+			}
+		}
+	}
+	sort.Strings(res.funcFields)
+	sort.Slice(res.ffuncs, func(i, j int) bool {
+		if res.ffuncs[i][0] != res.ffuncs[j][0] {
+			return res.ffuncs[i][0] < res.ffuncs[j][0]
+		}
+		return res.ffuncs[i][1] < res.ffuncs[j][1]
+	})
+	var imports []string
+	for p := range importSet {
+		imports = append(imports, p)
+	}
+	sort.Strings(imports)
 
 	// ---- output ------------------------------------------------------------------------
 	out := os.Stdout
 	fmt.Fprintf(out, "(* GENERATED by tools/cmd/globals2coq from %s - do not edit *)\n", repo)
-	fmt.Fprintf(out, "(* scanned: %s *)\n", strings.Join(scanned, " "))
-	fmt.Fprintf(out, "(* excluded by build constraint: %s *)\n", strings.Join(excluded, " "))
+	fmt.Fprintf(out, "(* scanned: %s *)\n", strings.Join(set.Union, " "))
+	fmt.Fprintf(out, "(* scan mode: %s *)\n", commentSafe(mode))
 	fmt.Fprintln(out, "From Jen Require Import Base.Bytes.")
 	fmt.Fprintln(out)
-	var es, us []string
-	for _, r := range s.rows {
-		es = append(es, fmt.Sprintf("(%s, %s)  (* %s  %s  reads: %d *)", coqfmt.Str(r.name), coqfmt.Bool(len(r.flags) > 0),
-			r.decl, commentSafe(r.typ), r.reads))
-		var fs []string
-		for _, f := range r.flags {
-			fs = append(fs, coqfmt.Str(f))
+	rowsOut := func(rows []*varRow) (es, us, ts []string) {
+		for _, r := range rows {
+			es = append(es, fmt.Sprintf("(%s, %s)  (* %s  %s  reads: %d *)", coqfmt.Str(r.name), coqfmt.Bool(len(r.flags) > 0),
+				r.decl, commentSafe(r.typ), r.reads))
+			var fs []string
+			for _, f := range r.flags {
+				fs = append(fs, coqfmt.Str(f))
+			}
+			us = append(us, fmt.Sprintf("(%s, %s)", coqfmt.Str(r.name), coqfmt.List(fs, "    ")))
+			ts = append(ts, fmt.Sprintf("(%s, (%s, %s))", coqfmt.Str(r.name), coqfmt.Str(r.full), coqfmt.Bool(r.reach)))
 		}
-		us = append(us, fmt.Sprintf("(%s, %s)", coqfmt.Str(r.name), coqfmt.List(fs, "    ")))
+		return
 	}
+	es, us, ts := rowsOut(res.rows)
 	fmt.Fprintln(out, "(* every package-level var of package jen; true = some occurrence outside its declaration")
 	fmt.Fprintln(out, "   may write it or hand out a reference through which it can be written *)")
 	fmt.Fprintf(out, "Definition package_vars : list (str * bool) := %s.\n\n", listWithComments(es, "  "))
 	fmt.Fprintln(out, "(* the occurrences that set the flag *)")
 	fmt.Fprintf(out, "Definition package_var_uses : list (str * list str) := %s.\n\n", coqfmt.List(us, "  "))
-	fmt.Fprintf(out, "Definition package_consts_count : nat := %d.\n\n", nconsts)
-	fmt.Fprintf(out, "Definition init_funcs : list str := %s.\n\n", coqfmt.List(strs(inits), "  "))
+	fmt.Fprintln(out, "(* the type of every package-level var (full package paths) and whether a value of the type")
+	fmt.Fprintln(out, "   can reach shared memory (pointer, slice, map, chan, func, interface inside) *)")
+	fmt.Fprintf(out, "Definition package_var_types : list (str * (str * bool)) := %s.\n\n", coqfmt.List(ts, "  "))
+	fes, fus, _ := rowsOut(res.frows)
+	fmt.Fprintln(out, "(* package-level vars of OTHER packages that package jen mentions; same flag *)")
+	fmt.Fprintf(out, "Definition foreign_vars : list (str * bool) := %s.\n\n", listWithComments(fes, "  "))
+	fmt.Fprintf(out, "Definition foreign_var_uses : list (str * list str) := %s.\n\n", coqfmt.List(fus, "  "))
+	var ffs []string
+	for _, f := range res.ffuncs {
+		ffs = append(ffs, fmt.Sprintf("(%s, %s)", coqfmt.Str(f[0]), coqfmt.Str(f[1])))
+	}
+	fmt.Fprintln(out, "(* package-level functions of other packages that package jen mentions: (import path, name) *)")
+	fmt.Fprintf(out, "Definition foreign_funcs : list (str * str) := %s.\n\n", coqfmt.List(ffs, "  "))
+	fmt.Fprintf(out, "Definition package_consts_count : nat := %d.\n\n", len(res.consts))
+	fmt.Fprintf(out, "Definition init_funcs : list str := %s.\n\n", coqfmt.List(strs(res.inits), "  "))
 	fmt.Fprintln(out, "(* struct fields of func type in types declared in package jen *)")
-	fmt.Fprintf(out, "Definition func_fields : list str := %s.\n\n", coqfmt.List(strs(funcFields), "  "))
+	fmt.Fprintf(out, "Definition func_fields : list str := %s.\n\n", coqfmt.List(strs(res.funcFields), "  "))
 	fmt.Fprintln(out, "(* uses of sync.*, sync/atomic.*, go statements, channels *)")
-	fmt.Fprintf(out, "Definition global_sync : list str := %s.\n\n", coqfmt.List(strs(s.sync), "  "))
+	fmt.Fprintf(out, "Definition global_sync : list str := %s.\n\n", coqfmt.List(strs(res.sync), "  "))
+	fmt.Fprintln(out, "(* every import path of the scanned files *)")
+	fmt.Fprintf(out, "Definition jen_imports : list str := %s.\n\n", coqfmt.List(strs(imports), "  "))
+	fmt.Fprintln(out, "(* non-test .go files of jen/ that are NOT compiled under at least one of")
+	fmt.Fprintln(out, "   {cgo on, cgo off} x {race, no race} on this GOOS/GOARCH (custom tags, other platforms, _x.go) *)")
+	fmt.Fprintf(out, "Definition excluded_go_files : list str := %s.\n\n", coqfmt.List(strs(set.Excluded), "  "))
+	fmt.Fprintln(out, "(* files of jen/ that are not Go but that the go tool compiles or links into the package *)")
+	fmt.Fprintf(out, "Definition non_go_sources : list str := %s.\n\n", coqfmt.List(strs(set.NonGo), "  "))
+	fmt.Fprintln(out, "(* function declarations without a body, go:linkname directives *)")
+	fmt.Fprintf(out, "Definition bodiless_funcs : list str := %s.\n\n", coqfmt.List(strs(bodiless), "  "))
 	fmt.Fprintf(out, "(* occurrences the scanner could not classify; must be empty *)\nDefinition globals_problems : list str := %s.\n",
-		coqfmt.List(strs(s.problems), "  "))
+		coqfmt.List(strs(res.problems), "  "))
 }
 
 // reachesSync: does the type mention a type of package sync or sync/atomic (shallowly)?
